@@ -18,6 +18,10 @@ SCALARS = NUMS + ['null', 'true', 'false', '""', '"a"', '"\\u00e9"', '"\\ud834\\
 TEMPLATES = [['X'], ['[', 'X', ',', 'Y', ']'], ['{"a":', 'X', ',"a":', 'Y', '}'], ['{"b":', 'X', ',"a":', 'Y', '}'], ['{"a":', 'X', ',"b":', 'Y', ',"a":null}'], ['[[', 'X', '],{"k":', 'Y', '}]'],
              [' [ ', 'X', ' , ', 'Y', ' ] '], ['{"é":', 'X', ',"":', 'Y', '}'], ['"', 'C', 'C', '"'], ['["', 'C', '",', 'X', ']'], ['{"k":"', 'C', 'C', '"}']]
 
+# thorough: three levels of nesting, three holes, three symbolic characters, a symbolic character in a member name position is not supported by the map model (concrete keys)
+DEEP_TEMPLATES = [['{"a":{"b":[', 'X', ',{"c":', 'Y', '}]}}'], ['[[[', 'X', ']],[', 'Y', ',', 'X', ']]'], ['{"a":', 'X', ',"b":', 'Y', ',"c":', 'X', '}'], ['"', 'C', 'C', 'C', '"'], ['["', 'C', '","', 'C', '"]'],
+                  ['{"k":["', 'C', '",', 'X', '],"k":', 'Y', '}'], ['\t[\n', 'X', '\r\n,', 'Y', ' ]\n'], ['{"a":{"a":', 'X', '},"a":{"a":', 'Y', '}}']]
+
 def job_rt(item):
     tpl, deadline = item
     prog = PROG; eng = Engine(prog); eng.deadline = deadline; S = Summary(); XP.init_decls(prog)
@@ -86,7 +90,8 @@ def run(run):
     PROG = run.program(); XP.init_decls(PROG); SEED = run.seed
     run.native('dev')
     XP.run_translator_validation(run, PROG, every=8 if run.tier == 'quick' else 1)
-    jobs = [('rt', t, run.deadline) for t in TEMPLATES] + [('conv', e, d, run.deadline) for e in ('try_from_ref', 'try_from_owned') for d in (1, 2)]
+    tpls = TEMPLATES if run.tier == 'quick' else TEMPLATES + DEEP_TEMPLATES
+    jobs = [('rt', t, run.deadline) for t in tpls] + [('conv', e, d, run.deadline) for e in ('try_from_ref', 'try_from_owned') for d in (1, 2)]
     run_jobs(run, jobs, task, 'mirsym: JSON text -> from_json (visitor MIR) -> @ -> to_string (Serialize MIR) -> re-read vs the denoted value')
     run.cands = [c for c in run.cands if c['key'].startswith('c08:') or c['key'].startswith('c05:')]
     run.confirm_all(confirm_m); run.cands = []
@@ -94,7 +99,7 @@ def run(run):
         bounds={'scalars (K)': 'every serde_json::Number (any u64, any i64, any finite f64), null, booleans: TryFrom<&Value>, TryFrom<Value>, Serialize for Variable (to_value) and the Deserialize visitor (from_value) keep the exact Number '
                                '(integer stays integer, u64 > i64::MAX stays unsigned, double bit-identical)',
                 'Value conversions (M)': 'Variable::try_from(&Value) and try_from(Value) on solver-chosen serde_json::Value trees (depth 1 with fully symbolic numbers, depth 2 structure): the result is the value itself (order, nesting, keys, exact numbers)',
-                'documents (M)': f'{len(TEMPLATES)} document templates (arrays, nested containers, duplicate keys incl. three occurrences, non-ASCII and empty keys, surrounding whitespace) whose holes range over {len(SCALARS)} scalar/number spellings '
+                'documents (M)': f'{len(TEMPLATES)} (thorough: {len(TEMPLATES) + len(DEEP_TEMPLATES)}) document templates (arrays, nested containers, duplicate keys incl. three occurrences, non-ASCII and empty keys, surrounding whitespace) whose holes range over {len(SCALARS)} scalar/number spellings '
                                  '(integer limits of u64/i64 and one beyond, 2^53+1, subnormal, 1e308, -0, exponent forms, escapes, surrogate pairs) and symbolic Unicode scalar values inside strings'},
         outside=['decimal -> double accuracy and number printing are executed inside serde_json/ryu (modelled, not verified): the "15 significant digits / 2 ulp" part of the property is NOT claimed',
                  'documents outside the templates; Value trees deeper than 2 / wider than 2'],
